@@ -4,6 +4,7 @@ import (
 	"context"
 	"errors"
 	"fmt"
+	"net"
 	"net/http"
 	"net/http/httptest"
 	"strings"
@@ -86,6 +87,18 @@ type Client struct {
 	Closer jsonrpc.ClientCloser
 	HTTP   bool
 	w      *World
+	mu     sync.Mutex
+	socks  []*faultConn // one per successful dial
+}
+
+// Sock returns the client's current socket.
+func (c *Client) Sock() *faultConn {
+	c.mu.Lock()
+	defer c.mu.Unlock()
+	if len(c.socks) == 0 {
+		return nil
+	}
+	return c.socks[len(c.socks)-1]
 }
 
 type H struct{ w *World }
@@ -419,6 +432,26 @@ func (h *H) Sub(ctx context.Context, tok int, n int) (<-chan [2]int, error) {
 
 // ---------------------------------------------------------------------------------------------- clients
 
+// faultConn is the client's own socket with a switch that makes writes fail locally while reads keep blocking
+// (a connection that became unwritable before the read side noticed anything).
+type faultConn struct {
+	net.Conn
+	mu        sync.Mutex
+	failWrite bool
+}
+
+func (f *faultConn) Write(p []byte) (int, error) {
+	f.mu.Lock()
+	fail := f.failWrite
+	f.mu.Unlock()
+	if fail {
+		return 0, errors.New("write: broken pipe (injected)")
+	}
+	return f.Conn.Write(p)
+}
+
+func (f *faultConn) FailWrites(on bool) { f.mu.Lock(); f.failWrite = on; f.mu.Unlock() }
+
 type ClientOpts struct {
 	Name        string
 	HTTP        bool
@@ -431,6 +464,7 @@ type ClientOpts struct {
 	Direct      bool // bypass the proxy
 	Reverse     bool // register the reverse handler
 	NoPing      bool
+	Via         string // explicit address to connect to (e.g. a TCPProxy in front of the server)
 }
 
 func (w *World) SetDialGate(on bool) {
@@ -450,7 +484,14 @@ func (w *World) NewClient(o ClientOpts) (*Client, error) {
 	if o.Direct || o.HTTP {
 		addr = w.TS.Listener.Addr().String() // the proxy only understands WebSocket traffic
 	}
+	if o.Via != "" {
+		addr = o.Via
+	}
+
 	var opts []jsonrpc.Option
+	if o.HTTP {
+		opts = append(opts, jsonrpc.WithHTTPClient(&http.Client{Transport: &http.Transport{MaxIdleConnsPerHost: 4, IdleConnTimeout: 30 * time.Second}}))
+	}
 	if o.NoReconnect {
 		opts = append(opts, jsonrpc.WithNoReconnect())
 	}
@@ -486,7 +527,23 @@ func (w *World) NewClient(o ClientOpts) (*Client, error) {
 			}
 			w.Rec.Emit("DialStart", "cli", o.Name, "first", first)
 			first = false
-			conn, err := orig()
+			// same dial as the library's own factory, but through a socket the scenario can make unwritable
+			var fc *faultConn
+			d := websocket.Dialer{NetDial: func(network, a string) (net.Conn, error) {
+				nc, err := net.Dial(network, a)
+				if err != nil {
+					return nil, err
+				}
+				fc = &faultConn{Conn: nc}
+				return fc, nil
+			}, HandshakeTimeout: 5 * time.Second}
+			conn, _, err := d.Dial("ws://"+addr, nil)
+			if err == nil && fc != nil {
+				c.mu.Lock()
+				c.socks = append(c.socks, fc)
+				c.mu.Unlock()
+			}
+			_ = orig
 			w.Rec.Emit("DialEnd", "cli", o.Name, "ok", err == nil)
 			return conn, err
 		}
@@ -541,7 +598,10 @@ func classifyErr(err error) (string, string) {
 		if strings.Contains(je.Message, "panic") {
 			return "herr", "panic"
 		}
-		return "herr", "handler"
+		if strings.HasPrefix(je.Message, "handler error") || strings.Contains(je.Message, "reverse call failed") {
+			return "herr", "handler"
+		}
+		return "other", fmt.Sprintf("rpc error %d: %s", je.Code, je.Message)
 	case errors.As(err, &cl):
 		if strings.Contains(msg, "websocket routine exiting") {
 			return "exit", ""
@@ -627,6 +687,18 @@ func (c *Client) Call(ctx context.Context, kind string, tok int, arg ...interfac
 	return outcome
 }
 
+// CallT issues a call but gives up waiting after d (the call stays outstanding and is judged at quiescence).
+func (c *Client) CallT(kind string, tok int, d time.Duration) string {
+	res := make(chan string, 1)
+	go func() { res <- c.Call(context.Background(), kind, tok) }()
+	select {
+	case o := <-res:
+		return o
+	case <-time.After(d):
+		return "pending"
+	}
+}
+
 // Subscribe issues a Sub call; the returned channel (if any) is consumed by Consume.
 func (c *Client) Subscribe(ctx context.Context, tok, n int, panicKind string) (<-chan [2]int, string) {
 	w := c.w
@@ -671,8 +743,20 @@ func (w *World) Consume(tok int, ch <-chan [2]int, gate <-chan struct{}, done ch
 	}()
 }
 
+// stuckScenarios counts scenarios that ended with outstanding calls; once a tree has shown that several times the
+// remaining scenarios do not spend the full grace periods again (the verdict is already decided, keep the run short).
+var stuckScenarios int
+
+func patience(d time.Duration) time.Duration {
+	if stuckScenarios >= 3 {
+		return d / 8
+	}
+	return d
+}
+
 // Quiesce issues a probe call on the client and records what is still outstanding.
 func (w *World) Quiesce(c *Client, probeTok int, grace time.Duration) {
+	grace = patience(grace)
 	probe := "none"
 	if c != nil {
 		ctx, cancel := context.WithTimeout(context.Background(), 4*time.Second)
@@ -691,7 +775,7 @@ func (w *World) Quiesce(c *Client, probeTok int, grace time.Duration) {
 		}()
 		select {
 		case probe = <-res:
-		case <-time.After(5 * time.Second):
+		case <-time.After(patience(5 * time.Second)):
 			probe = "hung"
 		}
 		cancel()
@@ -702,6 +786,9 @@ func (w *World) Quiesce(c *Client, probeTok int, grace time.Duration) {
 		time.Sleep(2 * time.Millisecond)
 	}
 	waiting := w.Waiting()
+	if len(waiting) > 0 || probe == "hung" {
+		stuckScenarios++
+	}
 	lost := []int{}
 	for _, t := range waiting {
 		if !w.Running(t) {
